@@ -15,7 +15,8 @@ RULE_TEXT = ("merge_generators over 1-4 sources and debounced_sorted_prefix over
              "signal-to-marker hand-off); a source "
              "may raise at item i; Task-set iteration order (hash salt) varied per run. Non-trivial: (merge) >=2 sources "
              "produced items at the same instant, or (debounce) >=1 item arrived within one tick of the flush instant; "
-             "distinct = abstract trace shape.")
+             "distinct = abstract trace shape."
+             " Debounce half, rule burst-cut: the length of the sorted prefix must be one the documented window admits (closing instant computed from the recorded arrival times: no arrival for debounce_seconds, or max_window_seconds from the start / from the first buffered item; arrivals within 4 loop hops of the closing instant or delivered across a loop stall may fall on either side).")
 COMPONENTS = {"real": ["llama_agents.core.iter_utils (merge_generators, debounced_sorted_prefix, Debouncer)"], "stub": [], "sim": ["loop, clock (time.monotonic patched before import)"]}
 ASSUMPTIONS = ["arrival order = order in which the inner generator produced the items", "keys are unique, so 'sorted' is unambiguous"]
 EXPECTED_PROBES = ["none-item", "equal-sort-keys", "merge-tie", "merge-error", "debounce-boundary-arrival", "debounce-late-items", "max-window-flush", "burst-extended-past-first-deadline"]
